@@ -78,11 +78,11 @@ Lemma winv_addR fl0 W0 sc e st E stL x v (b0 : bool) :
   winv pv sv bound u fl0 (world_addR W0 (length (SyltSem.cells st)) (s_ncell stL) b0) sc e (s_alloc st x) E (snd (alloc_cell stL v)).
 Proof.
   intros Hw Hwf Hxv.
-  pose proof Hw as [H1 H2 H3 H4 H5 H6 H7 Hff H8 H9 H10 Hall Hlock H11 H13 H14].
+  pose proof Hw as [H1 H2 H3 H4 H5 H6 H7 Hff H8 H9 H10 Hall Hlock H11 H13 H14 Hfi].
   assert (HRc : forall c p b, w_R W0 c p b -> (c < length (SyltSem.cells st))%nat /\ (p < s_ncell stL)%positive).
   { intros c p b Hr. destruct (H1 c p b Hr) as (y & A & _ & B). split; [apply nth_error_Some; congruence | exact B]. }
   assert (HFc : forall c p d, w_F W0 c p d -> (c < length (SyltSem.cells st))%nat /\ (p < s_ncell stL)%positive).
-  { intros c p d Hf. destruct (H6 c p d Hf) as (A & _ & B & _). split; [apply nth_error_Some; congruence | exact B]. }
+  { intros c p d Hf. destruct (H6 c p d Hf) as (d0 & A & _ & B & _). split; [apply nth_error_Some; congruence | exact B]. }
   constructor; cbn [world_addR w_R w_F w_D w_P w_pc].
   - intros c p b [Hr|(-> & -> & ->)].
     + destruct (H1 c p b Hr) as (y & A & B & C). exists y. split; [apply nth_error_app_old; exact A|].
@@ -100,8 +100,8 @@ Proof.
     + eapply H4. exact Hr.
     + split; [intros p' d Hf; destruct (HFc _ _ _ Hf); lia | intros c' d Hf; destruct (HFc _ _ _ Hf); lia].
   - intros c p b lv [Hr|(-> & -> & ->)]; [exact (H5 c p b lv Hr)|]. intros Hp. destruct (H8 _ _ Hp). lia.
-  - intros c p d Hf. destruct (H6 c p d Hf) as (A & B & C & D).
-    split; [apply nth_error_app_old; exact A|]. split; [rewrite get_cell_alloc_old; assumption|]. split; [cbn; lia | exact D].
+  - intros c p K0 Hf. destruct (H6 c p K0 Hf) as (d0 & A & B & C & D & Dk). exists d0.
+    split; [apply nth_error_app_old; exact A|]. split; [rewrite get_cell_alloc_old; assumption|]. split; [cbn; lia | split; [exact D | exact Dk]].
   - exact H7.
   - exact Hff.
   - intros p lv Hp. destruct (H8 p lv Hp) as [A B]. split; [rewrite get_cell_alloc_old; assumption | cbn; lia].
@@ -119,6 +119,7 @@ Proof.
   - intros t p Hbt Hq. destruct (H14 t p Hbt Hq) as [Hn1 Hn2]. split; [|exact Hn2].
     intros c b [Hr|(-> & -> & ->)]; [exact (Hn1 c b Hr)|].
     pose proof (wf_alloc _ _ Hwf _ _ Hq). lia.
+  - exact Hfi.
 Qed.
 
 (* a new user variable: `local V<var> = <v>` / new_cell x, with related values *)
@@ -130,7 +131,7 @@ Proof.
   intros (Hfs & W1 & Hs1 & [Hb Hfb Hp Hpb HpE HpG Hwf Ht Hli HW]) Hfresh Hxv.
   destruct (fresh_id_inv _ _ Hfresh) as (Hnin & Hnpv & Hnsv & Hvb). pose proof (fresh_id_fl _ _ Hfresh) as Hnfl.
   split.
-  { intros f ar Hin HK. destruct (Hfs f ar Hin HK) as (c & p & d & A & B & C). exists c, p, d.
+  { intros f ar Hin HK. destruct (Hfs f ar Hin HK) as (c & p & A & B & C). exists c, p.
     assert (Hne : f <> var).
     { intros ->. apply Hnfl. unfold fnames. change var with (fst (var, ar)). apply in_map. exact Hin. }
     cbn [SyltSem.lookup]. destruct (N.eqb_spec var f); [congruence|].
